@@ -32,7 +32,7 @@ ENGINE = {
     "C09": dict(profile="callbacks", flags=["-deep", "0", "-queries", "0", "-sweep", "3"],
                 quick=dict(plain=3200, checkptr=400), thorough=dict(plain=100000, checkptr=12000),
                 covkey="obs-fired", rule_extra="non-trivial: >= 20 effective ops and at least one probed observer callback"),
-    "C10": dict(profile="misuse", flags=["-deep", "4", "-queries", "1"],
+    "C10": dict(profile="misuse", flags=["-deep", "4", "-queries", "1", "-standing", "6"],
                 quick=dict(plain=3200, checkptr=400), thorough=dict(plain=100000, checkptr=12000),
                 covkey="misuse", rule_extra="non-trivial: >= 20 effective ops and at least one rejected call"),
     "C14": dict(profile="batch", flags=["-deep", "1", "-queries", "2", "-standing", "4", "-twin", "unsafe", "-matrix", "-minops", "40", "-maxops", "100"],
